@@ -22,9 +22,16 @@ MODELLED = "model↔code link is differential (sampled grammar-derived sources)"
 def run_case(case, model, tags=("corr", "C04", "C05")):
     import random
     rng = random.Random(case["seed"])
-    ap = RA.gen_abs(rng, n_max=case.get("n_max", 14))
+    ap = RA.gen_abs(rng, n_max=n_max_of(case))
     text = RA.render(rng, ap)
     return check_text(text, ap, model, rng, tags)
+
+
+def n_max_of(case):
+    """one case in 40 is a FAR program (label-form jal across more than 4 KiB), unless shrinking fixed n_max"""
+    if "n_max" in case:
+        return case["n_max"]
+    return "far" if case["seed"] % 40 == 0 else 14
 
 
 def check_text(text, ap, model, rng, tags):
@@ -35,18 +42,27 @@ def check_text(text, ap, model, rng, tags):
     from rv_exec import view
     dcfg = gen_rv.gen_cache_cfg(rng) if rng.random() < 0.3 else []
     icfg = gen_rv.gen_cache_cfg(rng) if rng.random() < 0.2 else []
-    sim, err = RA.impl_load(text, dcfg, icfg)
-    tk = RA.tokens_of(text)
-    if tk[0] == "syntax":
+    toy_first = rng.random() < 0.1
+    if toy_first:
+        cl.add("toy-first")
+    sim, err = RA.impl_load(text, dcfg, icfg, other_isa_first=toy_first)
+    try:
+        tk = RA.tokens_of(text)
+    except RA.ConvertError as e:
+        # the real tokenizer produced something outside its own documented token shapes: the model cannot be
+        # consulted; the reference assembler below still decides the property on the implementation
+        out["corr"].append(("disagreement", f"tokenizer output not convertible: {e}"))
+        tk = None
+    if tk is not None and tk[0] == "syntax":
         out["corr"].append(("disagreement", f"generated source rejected by the tokenizer at line {tk[1]}: {text.splitlines()[tk[1]-1]!r}"))
         return out, cl, text
-    r = model.call([60, dcfg, icfg, tk[1]])
+    r = model.call([60, dcfg, icfg, tk[1]]) if tk is not None else None
     if dcfg:
         cl.add("dcache")
-    merr = r[0][0] if r[0] else None
+    merr = (r[0][0] if r[0] else None) if r is not None else None
     if err is not None:
         cl.add("err:%d" % err[0])
-        if merr is None or merr[:2] != err[:2]:
+        if r is not None and (merr is None or merr[:2] != err[:2]):
             out["corr"].append(("disagreement", f"load error: impl {err} model {merr}"))
         # a well-formed generated program must assemble: the reference decides
         try:
@@ -58,7 +74,9 @@ def check_text(text, ap, model, rng, tags):
     cl.add("ok")
     lst = RA.listing(sim)
     low = RA.lower_bytes(sim)
-    if merr is not None:
+    if r is None:
+        pass
+    elif merr is not None:
         out["corr"].append(("disagreement", f"model rejects with {merr}, implementation accepts"))
     else:
         img = r[1][0]
@@ -102,6 +120,8 @@ def check_text(text, ap, model, rng, tags):
         cl.add("label-at-end")
     if ap.data:
         cl.add("data")
+    if len(lst) > 1024:
+        cl.add("far")
     # assembling is a function of the text: the same simulation object assembles the same text again identically
     if "C04" in tags:
         sim_again, err_again = RA.impl_load(text, dcfg, icfg, sim=sim)
@@ -161,15 +181,17 @@ class RvAsm(Slice):
     def describe(self, case):
         import random
         rng = random.Random(case["seed"])
-        ap = RA.gen_abs(rng, n_max=case.get("n_max", 14))
-        return {"source": RA.render(rng, ap).splitlines()}
+        ap = RA.gen_abs(rng, n_max=n_max_of(case))
+        return {"source": RA.render(rng, ap).splitlines()[:60]}
 
     def shrink(self, case):
+        if n_max_of(case) == "far":
+            return
         for n in range(2, case.get("n_max", 14)):
             yield dict(case, n_max=n)
 
     def required_classes(self, tier):
-        return ["ok", "pseudo", "label-ref", "inline-label", "inline-on-expanding", "label-at-end", "data"]
+        return ["ok", "pseudo", "label-ref", "inline-label", "inline-on-expanding", "label-at-end", "data", "far", "toy-first"]
 
 
 def slices():
